@@ -184,6 +184,7 @@ type Exec struct {
 	foreign     map[*ssa.Global]*Obj
 	ufApps      map[string][]ufApp
 	uniqNo      map[*sym.Term]bool
+	poison      bool // big.Int model: the value being produced is outside the model (init only)
 }
 
 func (e *Exec) end(kind EndKind, format string, args ...interface{}) {
@@ -831,7 +832,7 @@ func (e *Exec) cloneVal(v Value) Value {
 		}
 		return n
 	case *BigV:
-		return &BigV{V: x.V, Bits: x.Bits}
+		return &BigV{V: x.V, Bits: x.Bits, Poison: x.Poison}
 	case TupleV:
 		n := make(TupleV, len(x))
 		for i, f := range x {
